@@ -9,62 +9,62 @@
 EXTENDS Integers, Sequences, FiniteSets, TLC
 
 (* TLC keeps [k \in S |-> e] as an unevaluated lambda and re-evaluates e on every application; TLCEval makes it a table. *)
-Ev(f) == TLCEval(f)
+Tab(f) == TLCEval(f)
 
-BitsOfBytes(B)   == Ev([k \in 1..(8 * Len(B)) |-> (B[((k - 1) \div 8) + 1] \div 2^((k - 1) % 8)) % 2])
-BitsOfLimbs(L)   == Ev([k \in 1..(16 * Len(L)) |-> (L[((k - 1) \div 16) + 1] \div 2^((k - 1) % 16)) % 2])
-BytesOfBits(x)   == Ev([j \in 1..(Len(x) \div 8) |->
+BitsOfBytes(B)   == Tab([k \in 1..(8 * Len(B)) |-> (B[((k - 1) \div 8) + 1] \div 2^((k - 1) % 8)) % 2])
+BitsOfLimbs(L)   == Tab([k \in 1..(16 * Len(L)) |-> (L[((k - 1) \div 16) + 1] \div 2^((k - 1) % 16)) % 2])
+BytesOfBits(x)   == Tab([j \in 1..(Len(x) \div 8) |->
                        x[8*j-7] + 2*x[8*j-6] + 4*x[8*j-5] + 8*x[8*j-4] + 16*x[8*j-3] + 32*x[8*j-2] + 64*x[8*j-1] + 128*x[8*j]])
-LimbsOfBits(x)   == LET B == BytesOfBits(x) IN Ev([j \in 1..(Len(x) \div 16) |-> B[2*j-1] + 256 * B[2*j]])
+LimbsOfBits(x)   == LET B == BytesOfBits(x) IN Tab([j \in 1..(Len(x) \div 16) |-> B[2*j-1] + 256 * B[2*j]])
 IsBytes(B, n)    == Len(B) = n /\ \A j \in 1..n : B[j] \in 0..255
 IsLimbs(L, n)    == Len(L) = n /\ \A j \in 1..n : L[j] \in 0..65535
 
-Zeros(n)         == Ev([k \in 1..n |-> 0])
-Ones(n)          == Ev([k \in 1..n |-> 1])
+Zeros(n)         == Tab([k \in 1..n |-> 0])
+Ones(n)          == Tab([k \in 1..n |-> 1])
 (* the w-bit word of a small natural number (v < 2^30) *)
-OfNat(v, w)      == Ev([k \in 1..w |-> IF k <= 30 THEN (v \div 2^(k - 1)) % 2 ELSE 0])
+OfNat(v, w)      == Tab([k \in 1..w |-> IF k <= 30 THEN (v \div 2^(k - 1)) % 2 ELSE 0])
 (* the natural number of a word whose value is known to be below 2^30 *)
 RECURSIVE NatOfFrom(_, _)
 NatOfFrom(x, k)  == IF k > Len(x) THEN 0 ELSE x[k] * 2^(k - 1) + NatOfFrom(x, k + 1)
 IsSmall(x)       == \A k \in 1..Len(x) : k > 30 => x[k] = 0
-ToNat(x)         == NatOfFrom(Ev([k \in 1..(IF Len(x) < 30 THEN Len(x) ELSE 30) |-> x[k]]), 1)
+ToNat(x)         == NatOfFrom(Tab([k \in 1..(IF Len(x) < 30 THEN Len(x) ELSE 30) |-> x[k]]), 1)
 
-Trunc(x, w)      == Ev([k \in 1..w |-> x[k]])
-ZExt(x, w)       == Ev([k \in 1..w |-> IF k <= Len(x) THEN x[k] ELSE 0])
-SExt(x, w)       == Ev([k \in 1..w |-> IF k <= Len(x) THEN x[k] ELSE x[Len(x)]])
+Trunc(x, w)      == Tab([k \in 1..w |-> x[k]])
+ZExt(x, w)       == Tab([k \in 1..w |-> IF k <= Len(x) THEN x[k] ELSE 0])
+SExt(x, w)       == Tab([k \in 1..w |-> IF k <= Len(x) THEN x[k] ELSE x[Len(x)]])
 Ext(x, w, sgn)   == IF sgn THEN SExt(x, w) ELSE ZExt(x, w)
-Slice(x, lo, n)  == Ev([k \in 1..n |-> x[lo + k]])  \* bits lo .. lo+n-1
+Slice(x, lo, n)  == Tab([k \in 1..n |-> x[lo + k]])  \* bits lo .. lo+n-1
 Msb(x)           == x[Len(x)]
 IsZero(x)        == \A k \in 1..Len(x) : x[k] = 0
 SetBits(x)       == {k - 1 : k \in {j \in 1..Len(x) : x[j] = 1}}     \* positions of the 1 bits
-OfSet(S, w)      == Ev([k \in 1..w |-> IF (k - 1) \in S THEN 1 ELSE 0])
+OfSet(S, w)      == Tab([k \in 1..w |-> IF (k - 1) \in S THEN 1 ELSE 0])
 MinOf(S)         == CHOOSE m \in S : \A y \in S : m <= y
 MaxOf(S)         == CHOOSE m \in S : \A y \in S : m >= y
 
-Not(x)           == Ev([k \in 1..Len(x) |-> 1 - x[k]])
-And(x, y)        == Ev([k \in 1..Len(x) |-> x[k] * y[k]])
-Or(x, y)         == Ev([k \in 1..Len(x) |-> IF x[k] + y[k] > 0 THEN 1 ELSE 0])
-Xor(x, y)        == Ev([k \in 1..Len(x) |-> (x[k] + y[k]) % 2])
+Not(x)           == Tab([k \in 1..Len(x) |-> 1 - x[k]])
+And(x, y)        == Tab([k \in 1..Len(x) |-> x[k] * y[k]])
+Or(x, y)         == Tab([k \in 1..Len(x) |-> IF x[k] + y[k] > 0 THEN 1 ELSE 0])
+Xor(x, y)        == Tab([k \in 1..Len(x) |-> (x[k] + y[k]) % 2])
 (* x + y + cin modulo 2^w.  Evaluated on 16-bit limbs (sums stay far below 2^31) for speed: the carry chain has w/16 links. *)
 AddLimbs(a, b, cin) == LET n == Len(a)
                            c[k \in 0..n] == IF k = 0 THEN cin ELSE (a[k] + b[k] + c[k - 1]) \div 65536
-                       IN Ev([k \in 1..n |-> (a[k] + b[k] + c[k - 1]) % 65536])
+                       IN Tab([k \in 1..n |-> (a[k] + b[k] + c[k - 1]) % 65536])
 Pad16(w)         == ((w + 15) \div 16) * 16
 AddC(x, y, cin)  == LET w == Len(x) p == Pad16(w) IN
                     Trunc(BitsOfLimbs(AddLimbs(LimbsOfBits(ZExt(x, p)), LimbsOfBits(ZExt(y, p)), cin)), w)
 Add(x, y)        == AddC(x, y, 0)
 Neg(x)           == AddC(Not(x), Zeros(Len(x)), 1)
 Sub(x, y)        == AddC(x, Not(y), 1)
-Shl(x, n)        == Ev([k \in 1..Len(x) |-> IF k - n >= 1 THEN x[k - n] ELSE 0])
-Shr(x, n)        == Ev([k \in 1..Len(x) |-> IF k + n <= Len(x) THEN x[k + n] ELSE 0])
-Sar(x, n)        == Ev([k \in 1..Len(x) |-> IF k + n <= Len(x) THEN x[k + n] ELSE x[Len(x)]])
-Ror(x, n)        == Ev([k \in 1..Len(x) |-> x[((k - 1 + n) % Len(x)) + 1]])
+Shl(x, n)        == Tab([k \in 1..Len(x) |-> IF k - n >= 1 THEN x[k - n] ELSE 0])
+Shr(x, n)        == Tab([k \in 1..Len(x) |-> IF k + n <= Len(x) THEN x[k + n] ELSE 0])
+Sar(x, n)        == Tab([k \in 1..Len(x) |-> IF k + n <= Len(x) THEN x[k + n] ELSE x[Len(x)]])
+Ror(x, n)        == Tab([k \in 1..Len(x) |-> x[((k - 1 + n) % Len(x)) + 1]])
 (* x * y modulo 2^w: schoolbook multiplication on bytes (column sums stay below 2^31 for up to 128-bit words) *)
 RECURSIVE ColSum(_, _, _, _)
 ColSum(a, b, k, i) == IF i > k THEN 0 ELSE a[i] * b[k + 1 - i] + ColSum(a, b, k, i + 1)      \* sum of a[i]*b[j] with i + j = k + 1
 MulBytes(a, b)   == LET n == Len(a)
                         t[k \in 0..n] == IF k = 0 THEN 0 ELSE ColSum(a, b, k, 1) + t[k - 1] \div 256
-                    IN Ev([k \in 1..n |-> t[k] % 256])
+                    IN Tab([k \in 1..n |-> t[k] % 256])
 Mul(x, y)        == LET w == Len(x) p == ((w + 7) \div 8) * 8 IN
                     Trunc(BitsOfBytes(MulBytes(BytesOfBits(ZExt(x, p)), BytesOfBits(ZExt(y, p)))), w)
 
@@ -82,5 +82,5 @@ FitsSigned(x, sgn, n)   == IF sgn THEN (n >= Len(x) \/ \A k \in n..Len(x) : x[k]
 FitsUnsigned(x, sgn, n) == /\ sgn => Msb(x) = 0
                            /\ n >= Len(x) \/ \A k \in (n + 1)..Len(x) : x[k] = 0
 
-ReverseBytes(x)  == LET n == Len(x) \div 8 IN Ev([k \in 1..Len(x) |-> x[8 * (n - 1 - ((k - 1) \div 8)) + ((k - 1) % 8) + 1]])
+ReverseBytes(x)  == LET n == Len(x) \div 8 IN Tab([k \in 1..Len(x) |-> x[8 * (n - 1 - ((k - 1) \div 8)) + ((k - 1) % 8) + 1]])
 =============================================================================
